@@ -220,5 +220,29 @@ def origins(out: Outcome, term: Value, stop: Callable[[Value], bool] = None) -> 
     return leaves
 
 
+def ops_on_flow(out: Outcome, term: Value) -> List[str]:
+    """Names of the operations (term constructors and recorded external calls) a value went through on its way from its
+    leaves -- used to ask whether a comparison operand was transformed lossily (case folding, replace, ...)."""
+    by_ret = {e.ret.key(): e for e in out.effects if e.ret is not None}
+    seen, ops, stack = set(), [], [term]
+    while stack:
+        t = stack.pop()
+        if not isinstance(t, Value) or t.key() in seen:
+            continue
+        seen.add(t.key())
+        e = by_ret.get(t.key())
+        if e is not None:
+            ops.append(e.name)
+            stack.extend(e.args)
+            stack.extend(v for k, v in e.kwargs.items())
+            continue
+        if isinstance(t, App):
+            ops.append(t.op)
+            stack.extend(a for a in t.args if isinstance(a, Value))
+        elif isinstance(t, Tup):
+            stack.extend(t.items)
+    return ops
+
+
 def flows_from(out: Outcome, term: Value, source: Value) -> bool:
     return any(l.key() == source.key() for l in origins(out, term))
